@@ -80,9 +80,18 @@ func c08Parse(p *chk.Prog, r *chk.Report) {
 				tag = "literal"
 			} else {
 				v := res[0]
-				ok = g.Dominated(rt, chk.GAnyOf(
-					g.GPat(false, "len(X) == 0", chk.H("X", func(e ast.Expr) bool { return f.SameExpr(e, v) })),
-					g.GPat(true, "len(X) > 0", chk.H("X", func(e ast.Expr) bool { return f.SameExpr(e, v) }))))
+				nonEmpty := func(of ast.Expr) bool {
+					return g.Dominated(rt, chk.GAnyOf(
+						g.GPat(false, "len(X) == 0", chk.H("X", func(e ast.Expr) bool { return f.SameExpr(e, of) })),
+						g.GPat(true, "len(X) > 0", chk.H("X", func(e ast.Expr) bool { return f.SameExpr(e, of) }))))
+				}
+				ok = nonEmpty(v)
+				if !ok {
+					// make(T, len(P)) for a P that is known to be non-empty has as many elements
+					if b := f.MatchNew("make(_, len(P))", f.Resolve(v)); b != nil {
+						ok = nonEmpty(b["P"])
+					}
+				}
 			}
 			x.Check("ParseCIDR:return("+tag+"):non-empty", rt.Pos(), ok, "", "ParseCIDR can accept an entry that yields no network (the pool would be accepted with fewer addresses than written; later code indexes element 0)")
 		}
@@ -373,11 +382,11 @@ func c08AdvValid(p *chk.Prog, r *chk.Report) {
 			guard := chk.GAnyOf(
 				g.GPat(false, "M < L", chk.H("M", maxLen), chk.H("L", definedBy(g, "lowestMask(G)", chk.H("G", grp)))),
 				g.GPat(true, "len(G) == 0", chk.H("G", grp)))
-			if o, w := g.LoopForall(rs, guard); o {
-				okA = len(nilRets) == 1 && g.AfterLoop(nilRets[0], rs)
-				whyA = "the accepting return does not follow the loop"
+			if len(nilRets) == 1 {
+				whyA = forallBefore(f, g, rs, guard, nilRets[0])
+				okA = whyA == ""
 			} else {
-				whyA = w
+				whyA = "expected one accepting return"
 			}
 		}
 		x.Check("validateBGPAdvPerPool:aggregation-length-on-every-group", f.Pos(), okA, "", "an advertisement can be accepted although its aggregation length is shorter than the least specific network of an address group ("+whyA+")")
@@ -387,11 +396,11 @@ func c08AdvValid(p *chk.Prog, r *chk.Report) {
 			guard := chk.GAnyOf(
 				g.GPat(false, "A.LocalPref != B.LocalPref", chk.H("A", adv), chk.H("B", other)),
 				g.GPat(true, "advertisementsAreCompatible(A, B, P)", chk.H("A", adv), chk.H("B", other), chk.H("P", pool)))
-			if o, w := g.LoopForall(rs, guard); o {
-				okB = len(nilRets) == 1 && g.AfterLoop(nilRets[0], rs)
-				whyB = "the accepting return does not follow the loop"
+			if len(nilRets) == 1 {
+				whyB = forallBefore(f, g, rs, guard, nilRets[0])
+				okB = whyB == ""
 			} else {
-				whyB = w
+				whyB = "expected one accepting return"
 			}
 		}
 		x.Check("validateBGPAdvPerPool:localpref-against-every-attached", f.Pos(), okB, "", "two advertisements with different local preferences can be accepted on one pool without the compatibility test ("+whyB+")")
@@ -442,7 +451,7 @@ func c08AdvValid(p *chk.Prog, r *chk.Report) {
 				if !ok {
 					for _, rs := range ac.RangeLoops(func(e ast.Expr) bool { return ac.MatchWith("A.Nodes", e, chk.H("A", na)) != nil }) {
 						guard := g.GPat(false, "OK", chk.H("OK", definedBy(g, "B.Nodes[N]", chk.H("B", ad), chk.H("N", rangeKey(ac, rs)))))
-						if o, _ := g.LoopForall(rs, guard); o && g.AfterLoop(rt, rs) {
+						if forallBefore(ac, g, rs, guard, rt) == "" {
 							ok = true
 						}
 					}
